@@ -28,8 +28,8 @@ STAGES = ("setUp_pre", "setUp_post", "test", "tearDown_pre", "tearDown_post")
 
 # kinds a scripted op can raise
 EXC_KINDS = ("fail", "error", "skip", "xfail", "uxsuccess", "multi", "kbi", "sysexit",
-             "subfail", "subskip", "suberror", "user", "abort")
-BASE_KINDS = ("kbi", "sysexit", "abort")
+             "subfail", "subskip", "suberror", "user", "abort", "genexit")
+BASE_KINDS = ("kbi", "sysexit", "abort", "genexit")
 
 
 class SubInterrupt(KeyboardInterrupt):
@@ -517,6 +517,8 @@ def _make_exc(kind, marker, extra=None):
         return (SubExit if odd else SystemExit)(marker)
     if kind == "abort":
         return Abort(marker)
+    if kind == "genexit":
+        return GeneratorExit(marker)
     if kind == "user":
         return USER_CLASSES[extra](marker)
     raise AssertionError(kind)
